@@ -97,7 +97,24 @@ def build(case: dict[str, Any]) -> tuple[dict[str, Any], AffineEvaluator, OptMod
     return cfg, ev, transforms
 
 
+def open_descriptors() -> int:
+    import os
+
+    return len(os.listdir("/proc/self/fd"))
+
+
 def run(case: dict[str, Any]) -> dict[str, Any]:
+    before = open_descriptors() if case.get("redirect") else 0
+    out = _run(case)
+    if case.get("redirect"):
+        # a run that leaves descriptors open makes a later run of the same process fail with OSError(EMFILE) - an unrelated
+        # internal exception out of run_step after a few hundred optimizations
+        after = open_descriptors()
+        check(after <= before, "descriptor-leak", f"a run with redirected optimizer output left {after - before} file descriptors open", case)
+    return out
+
+
+def _run(case: dict[str, Any]) -> dict[str, Any]:
     cfg, ev, transforms = build(case)
     ctx = OptimizerContext(evaluator=ev)
     stream: list[tuple[str, Any]] = []
